@@ -4,14 +4,20 @@
 (* ReqResp (C17).  The ndjson log is written by harness/cmd/c17 from the   *)
 (* five schedule points of message_protocol.go plus the harness' own       *)
 (* call/return events:                                                     *)
-(*   Reset(n,k)            new segment: n calls, retry budget k            *)
+(*   Reset(n,k,tmo)        new segment: n calls, retry budget k, configured *)
+(*                         response timeout tmo (microseconds)             *)
 (*   Sent(c,k)             req.afterSend     (logged after mp.send returned)*)
 (*   Registered(c,k)       req.registered    (logged under resMu)          *)
 (*   TimerFired(c,k)       req.timerFired                                  *)
 (*   Locked(c,k,d)         res.locked        (d-th response for that id)   *)
 (*   Found(c,k,d)          res.beforeDeliver (entry found, about to send)  *)
 (*   Miss(c,k,d)           lookup found no entry                           *)
-(*   Returned(c,k,res,corr) RequestFrom returned resp|timeout|cancel|error *)
+(*   Responded(c,k)        the REMOTE handler returned for the request of   *)
+(*                         attempt k (logged by the harness' handler on the *)
+(*                         answering host): its reply is now in the hands   *)
+(*                         of the layer (respond -> network -> onResponse)  *)
+(*   Returned(c,k,res,corr,dl) RequestFrom returned resp|timeout|cancel|error; *)
+(*                         dl = 1: the caller's ctx carried a deadline      *)
 (*   Quiesce(n,pending)    all calls returned; pending = VerifPending()    *)
 (* Steps of the specification that have no schedule point are silent:      *)
 (*   - Recv, ResDone, BufSend, Unreg may happen at any time (the log prunes *)
@@ -23,6 +29,14 @@
 (* A line is one or more TLC steps; the largest consumed line index is kept *)
 (* in TLC register 1 and printed by the POSTCONDITION.  The safety          *)
 (* properties are monitored in every reached state: <<"INV", name, line>>.  *)
+(* Two properties need what only the log knows:                             *)
+(*   NoVanishedReply  at Quiesce no reply of a Responded request is still   *)
+(*                    in flight (every one reached the lookup, res.locked)  *)
+(*   TimerNotEarly    "not lost when it arrives before the deadline": the   *)
+(*                    timer of an attempt fires no earlier than the         *)
+(*                    configured timeout after the attempt's first event    *)
+(*                    (10 % tolerance for a timer created a moment before   *)
+(*                    the first schedule point)                             *)
 (***************************************************************************)
 EXTENDS ReqResp, Json, Sequences
 
@@ -36,21 +50,30 @@ TraceCalls == 1..MaxOf({TraceLog[i].n : i \in 1..Len(TraceLog)})
 TraceMaxRetry == MaxOf({TraceLog[i].k : i \in 1..Len(TraceLog)})
 TraceMaxDup == MaxOf({TraceLog[i].d : i \in 1..Len(TraceLog)})
 TraceDupBudget == Len(TraceLog)
+TraceTmo == TraceLog[1].tmo
+TraceNoCalls == {}
+TraceDeadlineCalls == {TraceLog[i].c : i \in {j \in 1..Len(TraceLog) : TraceLog[j].ev = "Returned" /\ TraceLog[j].dl = 1}}
 
 VARIABLES l,       \* index of the next line to consume
-          early    \* ids whose Send was taken before its Sent line (the response outran the log)
-tvars == <<l, early, vars>>
+          early,   \* ids whose Send was taken before its Sent line (the response outran the log)
+          handled, \* ids whose remote handler returned (Responded lines)
+          tw       \* per id: time of the first logged event of the attempt (-1: none yet)
+tvars == <<l, early, handled, tw, vars>>
+aux == <<handled, tw>>
 
 Ev == TraceLog[l]
 C == Ev.c
 K == Ev.k
 Id == <<Ev.c, Ev.k>>
 R == <<Ev.c, Ev.k, Ev.d>>
+R0 == <<Ev.c, Ev.k, 0>>
+Monitor(name, ok) == IF ok THEN TRUE ELSE PrintT(<<"INV", name, l>>)
+Stamp == tw' = IF tw[Id] < 0 THEN [tw EXCEPT ![Id] = Ev.t] ELSE tw
 
 Consume == l' = l + 1
 Stay == l' = l
 
-TInit == l = 1 /\ early = {} /\ Init /\ TLCSet(1, 1)
+TInit == l = 1 /\ early = {} /\ handled = {} /\ tw = [i \in Ids |-> -1] /\ Init /\ TLCSet(1, 1)
 
 TReset ==
   /\ Ev.ev = "Reset"
@@ -58,20 +81,30 @@ TReset ==
   /\ reg' = {} /\ lock' = NoId /\ net' = {} /\ chanBuf' = {}
   /\ rpc' = [r \in Resps |-> "idle"]
   /\ result' = [c \in Calls |-> "none"] /\ got' = [c \in Calls |-> NoId] /\ dups' = 0
-  /\ early' = {} /\ Consume
+  /\ early' = {} /\ handled' = {} /\ tw' = [i \in Ids |-> -1] /\ Consume
 
 TSent ==
   /\ Ev.ev = "Sent" /\ att[C] = K
   /\ IF Id \in early
      THEN early' = early \ {Id} /\ UNCHANGED vars
      ELSE Send(C) /\ UNCHANGED early
-  /\ Consume
+  /\ Stamp /\ UNCHANGED handled /\ Consume
 
-TRegistered == Ev.ev = "Registered" /\ att[C] = K /\ Register(C) /\ UNCHANGED early /\ Consume
-TTimer == Ev.ev = "TimerFired" /\ att[C] = K /\ Timeout(C) /\ UNCHANGED early /\ Consume
-TLocked == Ev.ev = "Locked" /\ ResLock(R) /\ UNCHANGED early /\ Consume
-TFound == Ev.ev = "Found" /\ Found(R) /\ UNCHANGED early /\ Consume
-TMiss == Ev.ev = "Miss" /\ Missed(R) /\ UNCHANGED early /\ Consume
+TRegistered == Ev.ev = "Registered" /\ att[C] = K /\ Register(C) /\ Stamp /\ UNCHANGED <<early, handled>> /\ Consume
+TTimer ==
+  /\ Ev.ev = "TimerFired" /\ att[C] = K /\ Timeout(C)
+  /\ Monitor("TimerNotEarly", tw[Id] < 0 \/ 10 * (Ev.t - tw[Id]) >= 9 * TraceTmo)
+  /\ UNCHANGED <<early, aux>> /\ Consume
+TLocked == Ev.ev = "Locked" /\ ResLock(R) /\ UNCHANGED <<early, aux>> /\ Consume
+TFound == Ev.ev = "Found" /\ Found(R) /\ UNCHANGED <<early, aux>> /\ Consume
+TMiss == Ev.ev = "Miss" /\ Missed(R) /\ UNCHANGED <<early, aux>> /\ Consume
+
+\* the remote handler answered a request: that request was sent (possibly before its Sent line was logged)
+TResponded ==
+  /\ Ev.ev = "Responded"
+  /\ R0 \in net \/ rpc[R0] # "idle"
+  /\ handled' = handled \cup {Id}
+  /\ UNCHANGED <<vars, early, tw>> /\ Consume
 
 TReturned ==
   /\ Ev.ev = "Returned"
@@ -79,38 +112,45 @@ TReturned ==
   /\ Ev.res # "error" => att[C] = K
   /\ Ev.res = "resp" => /\ Ev.corr = 1 /\ got[C] = Id
                         /\ \A d \in 0..MaxDup : rpc[<<C, K, d>>] # "sent"
-  /\ UNCHANGED <<vars, early>> /\ Consume
+  /\ UNCHANGED <<vars, early, aux>> /\ Consume
 
 TQuiesce ==
   /\ Ev.ev = "Quiesce"
   /\ \A c \in 1..Ev.n : pc[c] = "done"
   /\ Cardinality(reg) = Ev.pending
-  /\ UNCHANGED <<vars, early>> /\ Consume
+  /\ Monitor("NoVanishedReply", Vanished(handled) = {})
+  /\ UNCHANGED <<vars, early, aux>> /\ Consume
 
 \* lazy silent steps, enabled only when the next line needs them
 SEarlySend ==
-  /\ Ev.ev = "Locked" /\ Ev.d = 0 /\ att[C] = K /\ Id \notin early
-  /\ rpc[R] = "idle" /\ R \notin net
-  /\ Send(C) /\ early' = early \cup {Id} /\ Stay
-SDup == Ev.ev = "Locked" /\ Ev.d > 0 /\ Dup(R) /\ UNCHANGED early /\ Stay
-SArrive == Ev.ev = "Locked" /\ Arrive(R) /\ UNCHANGED early /\ Stay
-SCancel == Ev.ev = "Returned" /\ Ev.res = "cancel" /\ att[C] = K /\ Cancel(C) /\ UNCHANGED early /\ Stay
-SFail == Ev.ev = "Returned" /\ Ev.res = "error" /\ SendFail(C) /\ UNCHANGED early /\ Stay
+  /\ (Ev.ev = "Locked" /\ Ev.d = 0) \/ Ev.ev = "Responded"
+  /\ att[C] = K /\ Id \notin early
+  /\ rpc[R0] = "idle" /\ R0 \notin net
+  /\ Send(C) /\ early' = early \cup {Id} /\ UNCHANGED aux /\ Stay
+SDup == Ev.ev = "Locked" /\ Ev.d > 0 /\ Dup(R) /\ UNCHANGED <<early, aux>> /\ Stay
+SArrive == Ev.ev = "Locked" /\ Arrive(R) /\ UNCHANGED <<early, aux>> /\ Stay
+SCancel == Ev.ev = "Returned" /\ Ev.res = "cancel" /\ att[C] = K /\ Cancel(C) /\ UNCHANGED <<early, aux>> /\ Stay
+SFail == Ev.ev = "Returned" /\ Ev.res = "error" /\ SendFail(C) /\ UNCHANGED <<early, aux>> /\ Stay
+\* SendUnderLock shape: the failing send releases resMu a moment before the call's Returned line is logged
+SFailEarly ==
+  /\ SendUnderLock
+  /\ \E c \in Calls : /\ lock = ReqTok(c)
+                       /\ \E i \in l..Len(TraceLog) : TraceLog[i].ev = "Returned" /\ TraceLog[i].c = c /\ TraceLog[i].res = "error"
+                       /\ SendFail(c)
+  /\ UNCHANGED <<early, aux>> /\ Stay
 
 \* silent steps without a schedule point
-SRecv == \E c \in Calls : Recv(c) /\ UNCHANGED early /\ Stay
-SUnreg == \E c \in Calls : Unreg(c) /\ UNCHANGED early /\ Stay
-SResDone == \E r \in Resps : ResDone(r) /\ UNCHANGED early /\ Stay
-SBufSend == \E r \in Resps : BufSend(r) /\ UNCHANGED early /\ Stay
+SRecv == \E c \in Calls : Recv(c) /\ UNCHANGED <<early, aux>> /\ Stay
+SUnreg == \E c \in Calls : Unreg(c) /\ UNCHANGED <<early, aux>> /\ Stay
+SResDone == \E r \in Resps : ResDone(r) /\ UNCHANGED <<early, aux>> /\ Stay
+SBufSend == \E r \in Resps : BufSend(r) /\ UNCHANGED <<early, aux>> /\ Stay
 
-Monitor(name, ok) == IF ok THEN TRUE ELSE PrintT(<<"INV", name, l>>)
-
-TTail == FreeTail /\ l > Len(TraceLog) /\ Next /\ UNCHANGED <<l, early>>
+TTail == FreeTail /\ l > Len(TraceLog) /\ Next /\ UNCHANGED <<l, early, aux>>
 
 TStep ==
   /\ l <= Len(TraceLog)
-  /\ \/ TReset \/ TSent \/ TRegistered \/ TTimer \/ TLocked \/ TFound \/ TMiss \/ TReturned \/ TQuiesce
-     \/ SEarlySend \/ SDup \/ SArrive \/ SCancel \/ SFail
+  /\ \/ TReset \/ TSent \/ TRegistered \/ TTimer \/ TLocked \/ TFound \/ TMiss \/ TResponded \/ TReturned \/ TQuiesce
+     \/ SEarlySend \/ SDup \/ SArrive \/ SCancel \/ SFail \/ SFailEarly
      \/ SRecv \/ SUnreg \/ SResDone \/ SBufSend
   /\ IF l' > TLCGet(1) THEN TLCSet(1, l') ELSE TRUE
   /\ Monitor("NoLostReply", NoLostReply' \/ ~NoLostReply)     \* reported when it becomes false
